@@ -16,6 +16,7 @@ use hvcommon::{Value, json};
 
 mod extra;
 mod join;
+mod pipe;
 
 // ------------------------------------------------------------------------------------------
 // scripted sources
@@ -156,7 +157,7 @@ pub fn nums(x: &Value) -> Vec<u64> {
 // ------------------------------------------------------------------------------------------
 // closure vocabulary (mirrors ev_fn / ev_pr / ev_op / ev_ls in coq/theories/Pull/Corr.v)
 
-fn ev_fn(f: &Value) -> Box<dyn FnMut(u64) -> u64> {
+pub fn ev_fn(f: &Value) -> Box<dyn FnMut(u64) -> u64> {
     if let Some(a) = f.as_array() {
         assert_eq!(a[0], "add");
         let k = num(&a[1]);
@@ -169,7 +170,7 @@ fn ev_fn(f: &Value) -> Box<dyn FnMut(u64) -> u64> {
     }
 }
 
-fn ev_pr(p: &Value) -> Box<dyn FnMut(&u64) -> bool> {
+pub fn ev_pr(p: &Value) -> Box<dyn FnMut(&u64) -> bool> {
     if let Some(a) = p.as_array() {
         assert_eq!(a[0], "lt");
         let k = num(&a[1]);
@@ -184,7 +185,7 @@ fn ev_pr(p: &Value) -> Box<dyn FnMut(&u64) -> bool> {
     }
 }
 
-fn ev_op(p: &Value) -> Box<dyn FnMut(u64) -> Option<u64>> {
+pub fn ev_op(p: &Value) -> Box<dyn FnMut(u64) -> Option<u64>> {
     match p.as_str().expect("optfn") {
         "half_even" => Box::new(|x| if x % 2 == 0 { Some(x / 2) } else { None }),
         "dec" => Box::new(|x| x.checked_sub(1)),
@@ -193,7 +194,7 @@ fn ev_op(p: &Value) -> Box<dyn FnMut(u64) -> Option<u64>> {
     }
 }
 
-fn ev_ls(p: &Value) -> Box<dyn FnMut(u64) -> Vec<u64>> {
+pub fn ev_ls(p: &Value) -> Box<dyn FnMut(u64) -> Vec<u64>> {
     match p.as_str().expect("listfn") {
         "rep_mod3" => Box::new(|x| vec![x; (x % 3) as usize]),
         "dup" => Box::new(|x| vec![x, x + 1]),
@@ -314,6 +315,7 @@ fn run(case: &Value) -> Value {
         "c11" => run_c11(case),
         "c13" => join::run_c13(case),
         "c11x" => extra::run_x(case),
+        "c11p" => pipe::run_pipe(case),
         o => json!({ "bad_case": format!("unknown kind {o}") }),
     }
 }
